@@ -200,7 +200,7 @@ inline KV genCase11(bool forTsan)
         return c;
     }
     if (op == OP11_KERNELS) {
-        c.putI("kernel_n", rpick({0, 1, 7, 9999, 10000, 10001, 30000}));
+        c.putI("kernel_n", rpick({0, 1, 7, 9999, 10000, 10001, 10001, 30000, 30000, 65536}));
         return c;
     }
     ProblemSpec p;
